@@ -967,6 +967,11 @@ def dnskey_ed_enc(flags, alg, k):
     return hx(DnsRecordDnskey(fl, _dns_enum(DnsSecAlgorithm, int(alg)), key, DnsSecProtocol.V3).compose())
 
 
+def txt_dec(h):
+    from cryptoparser.dnsrec.record import DnsRecordTxt
+    return DnsRecordTxt.parse_exact_size(bytes.fromhex('' if h == '-' else h)).value.encode('ascii').hex() or '-'
+
+
 def mx_dec(h):
     from cryptoparser.dnsrec.record import DnsRecordMx
     o = DnsRecordMx.parse_exact_size(bytes.fromhex(h))
@@ -1453,7 +1458,7 @@ COMMANDS = {
     'mysqlssl41': mysql_ssl41, 'mysqlhs': mysql_hs, 'mysqlssl320': mysql_ssl320, 'ovpnctl': ovpn_ctl, 'ovpntcp': ovpn_tcp, 'ovpnack': ovpn_ack, 'ovpnhrc': ovpn_hrc, 'ovpnhrs': ovpn_hrs, 'ovpndec': ovpn_dec, 'pgssl': pg_ssl,
     'sshpad': ssh_pad, 'mpintspec': mpint_spec, 'kexenc': kex_enc, 'kexdec': kex_dec, 'sshmsg': ssh_msg, 'sshmsgdec': ssh_msg_dec,
     'rsablob': blob_cmd(rsa_blob), 'dssblob': blob_cmd(dss_blob), 'edblob': blob_cmd(ed_blob), 'ecblob': blob_cmd(ec_blob),
-    'keytag': keytag_cmd, 'dsenc': ds_enc, 'mxenc': mx_enc, 'mxdec': mx_dec, 'cookiepair': cookiepair_cmd, 'cookieenc': cookieenc_cmd, 'cookieparams': cookieparams_cmd, 'nameenc': name_enc, 'txtenc': txt_enc, 'rrsigenc': rrsig_enc,
+    'keytag': keytag_cmd, 'dsenc': ds_enc, 'mxenc': mx_enc, 'mxdec': mx_dec, 'txtdec': txt_dec, 'cookiepair': cookiepair_cmd, 'cookieenc': cookieenc_cmd, 'cookieparams': cookieparams_cmd, 'nameenc': name_enc, 'txtenc': txt_enc, 'rrsigenc': rrsig_enc,
     'dnskeyrsaenc': dnskey_rsa_enc, 'dnskeyecenc': dnskey_ec_enc, 'dnskeyedenc': dnskey_ed_enc, 'dnskeydec': dnskey_dec,
     'chenc': ch_enc, 'ssl2chenc': ssl2_ch_enc, 'ssl2bigrec': ssl2_big_record, 'ssl2shenc': ssl2_sh_enc, 'chdec': ch_dec, 'ja3impl': ja3_cmd, 'shenc': sh_enc, 'hrrenc': hrr_enc, 'shdec': sh_dec, 'certenc': cert_enc, 'shdenc': shd_enc, 'certreqenc': certreq_enc, 'certreqdec': certreq_dec, 'certstenc': certst_enc, 'certstdec': certst_dec,
     'recenc': rec_enc, 'alertenc': alert_enc, 'ccsenc': ccs_enc, 'extenc': ext_enc,
